@@ -467,7 +467,7 @@ func (r *Run) ExecBlock(bi int, b Block) {
 		evs = append(evs, Evidence{ConsAddr: addr, Height: eh, Time: c.ValTimes[eh], Power: val.VotingPower, Total: vs.TotalVotingPower()})
 		r.Fault("equivocation_evidence")
 	}
-	rec := &BlockRecord{Height: h, Time: hdr.Time, Proposer: hdr.ProposerAddress, Votes: votes, Evidence: evs, LastAppHash: c.AppHash}
+	rec := &BlockRecord{Header: hdr, Height: h, Time: hdr.Time, Proposer: hdr.ProposerAddress, Votes: votes, Evidence: evs, LastAppHash: c.AppHash}
 	c.CurHeader = hdr
 	// optional CheckTx traffic before the block (mempool connection)
 	// (handled by specific monitors through ops flagged in b.CheckTx)
